@@ -71,6 +71,8 @@ fn main() {
         }
         if toks[0] == "case" {
             writeln!(w, "{}", toks.join(" ")).unwrap();
+            // (visible at once: if the case takes the process down, the abort belongs to this case)
+            w.flush().unwrap();
             // dropping the previous engine may itself panic in broken code; contain it
             let old = std::mem::replace(&mut eng, engines::make(&name).unwrap());
             let _ = catch_unwind(AssertUnwindSafe(move || drop(old)));
